@@ -433,12 +433,13 @@ type world struct {
 		vis   uint64
 		epoch int
 	}
-	firstPoll    bool
-	lagLeft      int // how many more times the L1 info querier may answer "not indexed yet"
-	rpcErrLeft   int // how many more RPCs of the L2 client may fail
-	restartsLeft int
-	forked       bool
-	notified     bool
+	firstPoll      bool
+	lagLeft        int            // how many more times the L1 info querier may answer "not indexed yet"
+	rpcErrLeft     int            // how many more RPCs of the L2 client may fail
+	stickyNotFound map[string]int // header argument -> further attempts answered "not found"
+	restartsLeft   int
+	forked         bool
+	notified       bool
 
 	fetched        map[uint64]common.Hash // PP: hash of block b when its logs were last served to the node
 	examined       map[uint64]common.Hash // FEP: hash of tip T when an eth_call was answered at tip T
@@ -931,6 +932,27 @@ func (w *world) l2Gate(g *act.Gate) (stop bool) {
 	}
 	if w.notifyPending() && w.c.Bool("detector-check-before-this-rpc") {
 		w.doNotify(g)
+		return false
+	}
+	if g.Op == "HeaderByNumber" && w.stickyNotFound[g.Arg] > 0 {
+		w.stickyNotFound[g.Arg]--
+		w.tr("%s(%s)-not-found", g.Op, g.Arg)
+		w.c.Transition(1)
+		w.sched.Release(g, act.Directive{Err: fmt.Errorf("verif: %w", ethereum.NotFound)})
+		return false
+	}
+	if w.rpcErrLeft > 0 && g.Op == "HeaderByNumber" && g.Arg != "latest" && g.Arg != "finalized" && g.Arg != "safe" && g.Arg != "pending" &&
+		w.c.Bool("this-header-is-unknown-to-the-node-for-8-attempts") {
+		// a lagging RPC backend: "not found" for this header, now and for the next 7 attempts
+		w.rpcErrLeft--
+		if w.stickyNotFound == nil {
+			w.stickyNotFound = map[string]int{}
+		}
+		w.stickyNotFound[g.Arg] = 7 //nolint:mnd
+		w.tr("%s(%s)-not-found", g.Op, g.Arg)
+		w.c.Witness("rpc_not_found_for_eight_attempts_in_a_row")
+		w.c.Transition(1)
+		w.sched.Release(g, act.Directive{Err: fmt.Errorf("verif: %w", ethereum.NotFound)})
 		return false
 	}
 	if w.rpcErrLeft > 0 && w.c.Bool("this-rpc-fails-once") {
